@@ -69,7 +69,20 @@ def _strata_sib(tier):
     return [('siblings/' + n, s.map(_sibling_scenario), 3) for n, s in sib] + _strata(tier)
 
 
+def _twin_scenario(case):
+    # two calls with equal-but-differently-typed values swapped between two parameters (x=1, y=1.0 / x=1.0, y=1), made in DIFFERENT call forms
+    # (positional / keyword, other keyword order): under a typed keymap they are different calls and must not answer each other
+    if case.get('twin_pair'):
+        i, j = case['twin_pair']
+        case = dict(case, ops=[['call', i, 2, 0], ['call', j, 5, 0], ['call', i, 0, 0], ['call', j, 1, 0], ['call', i, 5, 0], ['call', j, 2, 0]] + list(case['ops']))
+    return case
+
+
 def _strata(tier):
+    return [(n, s.map(_twin_scenario)) for n, s in _strata_main(tier)]
+
+
+def _strata_main(tier):
     return G.strata_grid(
         maxsizes=(2, 1, 3, 5, None, 0),
         weights={'call': 16, 'burst': 1, 'load': 2, 'dump': 2, 'dumpk': 1, 'loadk': 1, 'clear': 1, 'clearkeep': 1,
